@@ -13,7 +13,7 @@ ASSUMPTIONS = [
     'reference shifts per site come from pv/refmods.py / pv/refchem.py; the per-site clause is asserted only for inputs whose modifications all have a definite site',
     'mass tolerance: half a unit of the precision per shift written (+2e-6 per residue whose net shift is below the documented 1e-6 significance threshold; +1e-4 per named modification under an isotope label, C03 tolerance)',
     'unknown-position and interval modifications may stay in the result as numeric shifts at the same place (they have no residue of their own); static rules and isotope labels must be gone',
-    'static N-Term / C-Term rules: only the mass clause is asserted (the library writes the rule on the first / last residue, the property does not say whether terminus or terminal residue)',
+    'a static N-Term / C-Term rule modifies the terminus, so its shift is expected on the terminus (as condense_static_mods writes it), not on the terminal residue',
 ]
 
 KINDS = ('labile', 'static', 'isotope', 'unknown', 'nterm', 'cterm', 'internal', 'intervals', 'charge', 'adducts')
@@ -142,7 +142,6 @@ def check_case(case) -> Result:
                before=m_in, after=m_out, diff=diff, repeated=comps, repetition_amount=Q if comps else None, **ctx)
     # per-site shifts for inputs whose modifications all have a definite site
     definite = not pep['unknown'] and not any(iv[3] for iv in pep['intervals']) and pep['charge'] is None and \
-        not any(t in ('N-Term', 'C-Term') for _ms, tg in pep['static'] for t in tg) and \
         not any(_label_delta([L], refchem.WATER) for L in pep['isotope'])
     if definite:
         E = model.expand_static(pep)
@@ -157,7 +156,7 @@ def check_case(case) -> Result:
                        index=i, expected=exp, got=got, result=out, **ctx)
                 break
         for f in ('nterm', 'cterm', 'labile'):
-            exp = refmods.mods_mass(pep[f], True)
+            exp = refmods.mods_mass(E[f], True)  # (E: static N-Term / C-Term rules written out on their terminus)
             got = sum(v[1] * m for v, m in (obs[f] or []))
             if abs(got - exp) > 0.5 * 10 ** (-prec) + 1e-9:
                 r.fail('terminal and labile modifications become one numeric shift at the same place', f'C18/site/{f}', expected=exp, got=got,
